@@ -88,3 +88,9 @@ package codec
 //@ func (*Decoder).SetReader
 //@   props C01 C02
 //@   at-store rd: assert [reader-always-completes-reads] dyntype(value, "codec.fullReader")
+
+// ---- C05: decoding untrusted packets never crashes ------------------------------------------------------------------
+// Every packet decoder below proto/packet is put under the implicit safety obligations (slice/array bounds, nil
+// dereference, make sizes, division, unchecked type assertions; an explicit panic must carry an error value, which
+// util.Recover turns into a returned error).
+//@ sweep go.minekube.com/gate/pkg/edition/java/proto/packet Decode ; props C05
